@@ -35,6 +35,8 @@ OPS = [
  OP('remove_unpainted_shapes'), OP('remove_nonsvg_content'), OP('remove_processing_instructions'), OP('remove_anonymous_symbols'),
  OP('remove_title_meta_desc'), OP('set_attributes', (('fill', 'purple'),), xpath='//svg:rect | //svg:path'),
  OP('remove_attributes', ('fill',), xpath='//svg:rect | //svg:path'), OP('normalize_opacity'), OP('resolve_nested_svgs'),
+ OP('set_attributes', (('fill', 'orange'), ('stroke', 'none')), xpath='//svg:g'), OP('set_attributes', (('fill', 'green'),), xpath='/svg:svg'),
+ OP('remove_attributes', ('fill', 'opacity'), xpath='//svg:g'),
  OP('topicosvg'),
 ]
 QUERIES = [OP('shapes'), OP('bounding_box'), OP('view_box'), OP('tostring'), OP('checkpicosvg')]
@@ -42,9 +44,14 @@ QUERIES = [OP('shapes'), OP('bounding_box'), OP('view_box'), OP('tostring'), OP(
 def c14n(s):
     return etree.tostring(etree.fromstring(s.encode()), method='c14n')
 
+def op_name(op):
+    """unique display name: the k-th operation of the same method gets a #k suffix"""
+    same = [o for o in OPS + QUERIES if o[0] == op[0]]
+    return op[0] if same.index(op) == 0 else f'{op[0]}#{same.index(op)}'
+
 def label(step):
-    (name, a, k), mode = step
-    return f"{name}{'' if mode == 'query' else ('!' if mode == 'inplace' else '()')}"
+    op, mode = step
+    return f"{op_name(op)}{'' if mode == 'query' else ('!' if mode == 'inplace' else '()')}"
 
 def _path_of(el, root):
     idx = []
@@ -163,6 +170,13 @@ def corr(ctx):
     steps = [(op, m) for op in OPS for m in ('inplace', 'copy')] + [(q, 'query') for q in QUERIES]
     for _ in range(ctx.n(400, 6000)):
         hs.append([rng.choice(steps) for _ in range(rng.randint(3, 8))])
+    # targeted: a cache edit, then a change of an ancestor's inheritable attributes, then another cache edit
+    ED = [o for o in OPS if o[0] in ('round_floats', 'absolute', 'shapes_to_paths', 'normalize_opacity')]
+    AN = [o for o in OPS if o[0] in ('set_attributes', 'remove_attributes') and ('svg:g' in o[2].get('xpath', '') or o[2].get('xpath') == '/svg:svg')]
+    for e1 in ED:
+        for a in AN:
+            for e2 in ED:
+                hs.append([(e1, 'inplace'), (a, 'inplace'), (e2, 'inplace')])
     docs = list(DOCS.items())
     for i, h in enumerate(hs):
         dname, doc = docs[i % len(docs)] if len(h) > 2 else (None, None)
@@ -204,7 +218,7 @@ def parse_label(lbl):
     mode = 'inplace' if lbl.endswith('!') else ('copy' if lbl.endswith('()') else 'query')
     name = lbl.rstrip('!').replace('()', '')
     for op in OPS + QUERIES:
-        if op[0] == name: return (op, mode)
+        if op_name(op) == name: return (op, mode)
     raise KeyError(lbl)
 
 def search(ctx, broken, disagreements):
